@@ -78,7 +78,8 @@ func runC09(p *P, r *R) {
 	for _, f := range cons {
 		consNames = append(consNames, p.fname(f))
 	}
-	mPut := p.mCall(prodNames...)
+	mPut := p.mPutFamily()
+	_ = prodNames
 	mPop := p.mCall(consNames...)
 	recycle := p.mCall("(*linkedBuffer).recycle")
 
@@ -131,14 +132,21 @@ func runC09(p *P, r *R) {
 			"an exit that neither recycles nor hands the chain to the peer leaks it: %s", p.pathString(res))
 		r.count("R09.1", "enqueue sites in Flush", len(findInstrs(fl, mPut)), 1)
 		// the chain handed over is the one that was built: offset operand comes from the send buffer's root
-		nRoot := 0
-		for _, si := range findInstrs(fl, mStoreWord("queueElement.offsetInShmBuf")) {
-			if c, ok := si.(*ssa.Store).Val.(*ssa.Call); ok && p.calleeName(&c.Call) == "(*linkedBuffer).rootBufOffset" {
-				nRoot++
+		nRoot, nSites := 0, 0
+		_, wr := p.putFamily()
+		for _, g := range append([]*ssa.Function{fl}, wr...) {
+			for _, si := range findInstrs(g, mStoreWord("queueElement.offsetInShmBuf")) {
+				if c, ok := si.(*ssa.Store).Val.(*ssa.Call); ok && p.calleeName(&c.Call) == "(*linkedBuffer).rootBufOffset" {
+					nRoot++
+				}
+			}
+			prod, _ := p.queueRoles()
+			for _, pf := range prod {
+				nSites += len(findInstrs(g, p.mCall(p.fname(pf))))
 			}
 		}
 		r.ob("R09.1", "(*Stream).Flush: every element enqueued carries the root offset of the flushed chain", p.pos(fl.Pos()),
-			nRoot >= len(findInstrs(fl, mPut)) && nRoot > 0, true, "%d root-offset stores for %d enqueue sites", nRoot, len(findInstrs(fl, mPut)))
+			nRoot >= nSites && nRoot > 0, true, "%d root-offset stores for %d enqueue sites (Flush and its enqueue helpers)", nRoot, nSites)
 	}
 
 	// ---- R09.2 poller
